@@ -121,7 +121,7 @@ func init() {
 			"directed prefix: fault kind x position x n x placement x issuer configured or not; distinct = shape hash (fault, position, n, placement, issuer-configured, layout, outcome class)",
 		Directed:   c03Directed,
 		Run:        c03Run,
-		MustHit:    []string{"nonconforming_idp", "misroute", "delay_past_expiry", "position>0", "place=R", "place=A", "place=RA", "place=none", "issuer_unconfigured"},
+		MustHit:    []string{"nonconforming_idp", "misroute", "delay_past_expiry", "position>0", "place=R", "place=A", "place=RA", "place=none", "issuer_unconfigured", "redelivery_after_change"},
 		RandomRuns: map[string]int{"quick": 8000, "thorough": 60000},
 		Assumptions: []string{"error identity is compared by Go type and by the SAML element/attribute name it carries, never by message text",
 			"a fault is injected alone; with several simultaneous violations any of the corresponding errors is allowed"},
@@ -161,6 +161,7 @@ func c03Run(r *core.Run) {
 	fault := c03Faults[fi]
 
 	s := NewStd(r)
+	s.DrawLive()
 	s.DrawClockKnobs()
 	s.Cfg.SkipSig = place == PlaceNone
 	if !issuerCfg {
@@ -289,6 +290,44 @@ func c03Run(r *core.Run) {
 			ctx["returned"] = trunc(world.J(got), 1200)
 			r.Fail("soundness", "C03/accepted-but-model-rejects/"+why, ctx)
 			return
+		}
+	}
+	// redelivery of an accepted payload to the same SP after the application changed the consumer
+	// URL, or after the clock passed every expiry: acceptance must not be remembered
+	if out.OK() && t.Int(3, "c03.redeliver") == 1 {
+		what := t.Int(3, "c03.redeliver.what")
+		sp := s.Node.SP
+		var want []errSpec
+		switch what {
+		case 0:
+			sp.AssertionConsumerServiceURL = "https://moved-sp.example/acs"
+			want = []errSpec{{"invalid", []string{"destination"}}, {"invalid", []string{"recipient"}}}
+		case 1:
+			if sp.IdentityProviderIssuer == "" {
+				want = nil
+			} else {
+				sp.IdentityProviderIssuer = "https://other-idp.example/meta"
+				want = []errSpec{{"invalid", []string{"issuer"}}}
+			}
+		default:
+			r.Sim.Advance(2 * time.Hour)
+			want = []errSpec{{"invalid", []string{"notonorafter"}}}
+		}
+		if want != nil {
+			r.Fault("redelivery_after_change")
+			var o2 world.Outcome
+			if useRetrieve {
+				_, o2 = s.Node.Retrieve(enc)
+			} else {
+				_, o2 = s.Node.ValidateResponse(enc)
+			}
+			r.Steps++
+			r.Logf("redelivery after change %d -> %s %s", what, o2.Class(), world.ErrClass(o2.Err))
+			if o2.Panic == "" && (o2.OK() || !errMatches(o2.Err, want)) {
+				ctx["change"], ctx["second_err"] = what, fmt.Sprint(o2.Err)
+				r.Fail("reject", fmt.Sprintf("C03/redelivery-after-change-not-rejected/%d", what), ctx)
+				return
+			}
 		}
 	}
 	// (b) the injected fault
